@@ -202,8 +202,11 @@ def add_pre_citation(citation: FullCaseCitation, words: Tokens) -> None:
         citation.metadata.pin_cite_span_start = citation.span()[0] - (
             end - start
         )
+        # ... and prefer it; otherwise keep a pin cite found after the cite
+        citation.metadata.pin_cite = (
+            clean_pin_cite(m["pin_cite"]) or citation.metadata.pin_cite
+        )
 
-    citation.metadata.pin_cite = clean_pin_cite(m["pin_cite"]) or None
     citation.metadata.antecedent_guess = m["antecedent"]
     match_length = m.span()[1] - m.span()[0]
     citation.full_span_start = citation.span()[0] - match_length
